@@ -181,6 +181,10 @@ def configurations(case):
     if rx[j]["kind"] == "ma":
         cfg("subst_expr", style="named", include_params=False, free=dict(free, temperature=("T",)), subst=("expr", first, j),
             kpoly={m: tuple(case["pexpr_coef"]) + (("T",),) for m in group(j)}, tmode="T")
+        # (d') a unique-key constant with a stored default, passively substituted by exactly zero: the bound value, not
+        # the default, must reach the right-hand side (seeded/C04_8)
+        cfg("subst_zero", style="unique", include_params=False, free=dict(free, **Tfree), subst=("zero", first, j),
+            kpoly={m: (0, 0, None) for m in group(j)}, from_unique=True)
     # (e) CSTR
     style = "numeric" if case["cstr_inline"] else "named"
     free = {} if case["cstr_inline"] else dict(allkeys)
@@ -274,6 +278,8 @@ def build(M, case, c):
         kw["substitutions"] = {"temperature": M["RampedTemp"]([G.num(case["T0"]), G.num(case["dTdt"])], ("T0", "dTdt"))}
     elif isinstance(s, tuple) and s[0] == "key":
         kw["substitutions"] = {s[1]: G.num(case["rxns"][s[2]]["par"][0])}
+    elif isinstance(s, tuple) and s[0] == "zero":
+        kw["substitutions"] = {s[1]: 0}
     elif isinstance(s, tuple) and s[0] == "expr":
         Poly = M["create_Poly"]("temperature")
         kw["substitutions"] = {s[1]: Poly([G.num(x) for x in case["pexpr_coef"]])}
